@@ -56,6 +56,20 @@ class D6(DataClassDictMixin):
         allow_deserialization_not_by_alias = True
         forbid_extra_keys = True
 
+class TDK(TypedDict):
+    k: int
+
+class NTI(NamedTuple):
+    x: int
+    label: str = "origin"
+    inner: Optional[Inner] = None
+    td: Optional[TDK] = None
+
+@dataclass
+class D7(DataClassDictMixin):
+    p: NTI
+    n: int = 0
+
 @dataclass
 class D4:
     a: float
@@ -63,7 +77,7 @@ class D4:
     i: Inner
 '''
 CLASSES = {"D1": ["a", "b", "c", "d"], "D2": ["a", "e", "l"], "D3": ["a", "u", "t"], "D4": ["a", "m", "i"],
-           "D5": ["raw", "n", "p"], "D6": ["y", "w"]}
+           "D5": ["raw", "n", "p"], "D6": ["y", "w"], "D7": ["p"]}
 
 ASSUMPTIONS = [
     "CrossHair 0.0.110 model of Python and z3 5.1.0",
